@@ -243,6 +243,31 @@ def gen_rwp(r, tier):
     return line, {"op": "rwp", "style": style, "n": n, "quat": quat, "circ": circ, "ratio": ratio}
 
 
+def gen_ratio_boundaries(r, want):
+    """(N, ratio) pairs at which N * ratio is an integer in the reals, the floor of the exact and of the rounded double product
+    agree (so floor(ratio N) is unambiguous), but another way of writing the split (from the other side: N - ceil(N (1 - ratio)),
+    or through a rounded quotient) gives a different count: the boundary of `static_cast<int>(std::floor(cols * prior_ratio_))`"""
+    pool = []
+    for n in range(2, 201):
+        for j in range(1, 100):
+            if (n * j) % 100:
+                continue
+            ratio = j / 100.0
+            k = int(math.floor(n * ratio))
+            if math.floor(Fraction(ratio) * n) != k:
+                continue
+            alt = [n - int(math.ceil(n * (1.0 - ratio))), int(math.floor(n / (1.0 / ratio))), int(n - math.floor(n * (1.0 - ratio) + 0.5))]
+            if any(a != k for a in alt):
+                pool.append((n, ratio))
+    out = []
+    for n, ratio in r.sample(pool, min(want, len(pool))):
+        lin, circ, quat = layout(r)
+        w = gen_logw(r, r.choice(["random", "uniform", "zeros", "ties"]), n)
+        out.append(("rwp %d %d %d %d %d %s %s" % (r.randrange(1, 2 ** 32), n, lin, circ, quat, hexd(ratio), " ".join(hexd(x) for x in w)),
+                    {"op": "rwp", "style": "ratio-boundary", "n": n, "quat": quat, "circ": circ, "ratio": ratio}))
+    return out
+
+
 PRIOR_KINDS = {1, 6, 7, 9, 10, 12, 13}
 SEED1_KINDS = {11, 9, 12, 10, 13}            # constructor overloads without a seed: Resampling(1)
 DEFAULT_RATIO_KINDS = {10, 13}               # ResamplingWithPrior(init): prior_ratio_ = 0.5
@@ -724,6 +749,7 @@ def run(ctx):
     if not replay_line:
         gt = ctx.gen("pf-ties").r
         cases += gen_tie_positions(gt, ctx.tier)
+        cases += gen_ratio_boundaries(gt, ctx.n(40, 200))
     cases += [gen_rs(r, ctx.tier) for _ in range(n_rs)]
     cases += [gen_rwp(r, ctx.tier) for _ in range(n_rwp)]
     cases += [gen_seq(r, ctx.tier) for _ in range(n_seq)]
